@@ -109,7 +109,7 @@ def c15(spec, tier, seed, merged, drv, params, binary):
             cli_leg(drv, merged, binary, "c15", seed + 2, tier, cli, params.get("valgrind_cases", 12), "valgrind",
                     extra={"wrapper": "valgrind -q --error-exitcode=97 --leak-check=no",
                            # (25-50x slower: one small wide case and one big case per shard)
-                           "wide_cases": 1, "wide_n": 9, "big_cli_cases": 1}, timeout=3000)
+                           "wide_cases": 1, "wide_n": 9, "big_cli_cases": 1, "mid_cli_cases": 1}, timeout=3000)
         else:
             merged.inconclusive.append("valgrind not found")
 
